@@ -92,7 +92,7 @@ inductive PRes (α : Type) where
   | ok (v : α) (rest : Bytes)
   | eof
   | fail (code : Nat)
-deriving Repr
+deriving Repr, DecidableEq
 
 /-- the per-type stream-id table of `frame_header` -/
 def sidValid (ft : FType) (sid : Nat) : Bool :=
@@ -217,6 +217,18 @@ def settingsFrame (input : Bytes) (h : Header) : PRes Frame :=
   else if input.length < h.len then .eof
   else .ok (.settings (parseSettings (input.take h.len)) (flagSet h.flags Consts.h2FlagAck)) (input.drop h.len)
 
+/-- The first SETTINGS of a client connection as `h2.rs` parses it
+    (`H2State::ClientSettings`): `settings_frame` on the bytes read, with a
+    header built on the spot (no flags, `payload_len = input.len()`), i.e.
+    without the checks of `frame_body`. `Consts.h2FirstSettingsChecksLen` is
+    re-extracted from the source: whether that state refuses a length that is
+    not a multiple of 6 before calling `settings_frame`. -/
+def firstSettings (input : Bytes) : PRes Frame :=
+  if Consts.h2FirstSettingsChecksLen && input.length % Consts.h2SettingsEntrySize != 0 then
+    .fail FRAME_SIZE_ERROR
+  else
+    settingsFrame input { len := input.length, ftype := .settings, flags := 0, sid := 0 }
+
 def pushPromiseFrame (input : Bytes) (h : Header) : PRes Frame :=
   if input.length < h.len then .eof else .fail PROTOCOL_ERROR
 
@@ -285,7 +297,7 @@ inductive Res where
   | ok (h : Header) (f : Frame) (consumed : Nat)
   | incomplete
   | err (code : Nat)
-deriving Repr
+deriving Repr, DecidableEq
 
 /-- Header then body. A nom `Eof` from the body when the whole declared payload
     is present is what `h2.rs::error_nom_to_h2` turns into PROTOCOL_ERROR. -/
@@ -445,18 +457,25 @@ def maybeResetWindow (s : Flood) : Flood :=
 def flag (count thr : Nat) : Option Violation :=
   if count > thr then some (ENHANCE_YOUR_CALM, count, thr) else none
 
+/-- `a.or_else(|| b).or_else(|| c)…`: the first violation in the list -/
+def firstSome : List (Option Violation) → Option Violation
+  | [] => none
+  | some v :: _ => some v
+  | none :: r => firstSome r
+
 /-- the `or_else` chain of `check_flood`, on the counters after the decay -/
 def floodVerdict (s : Flood) : Option Violation :=
-  (flag s.rst s.cfg.maxRst).orElse fun _ =>
-  (flag s.ping s.cfg.maxPing).orElse fun _ =>
-  (flag s.pingLife Consts.h2DefaultMaxPingLifetime).orElse fun _ =>
-  (flag s.settings s.cfg.maxSettings).orElse fun _ =>
-  (flag s.settingsLife Consts.h2DefaultMaxSettingsLifetime).orElse fun _ =>
-  (flag s.emptyData s.cfg.maxEmptyData).orElse fun _ =>
-  (flag s.cont s.cfg.maxCont).orElse fun _ =>
-  (flag s.wu0 s.cfg.maxWu0).orElse fun _ =>
-  (flag s.accHdr s.cfg.maxHeaderList).orElse fun _ =>
-  flag s.glitch s.cfg.maxGlitch
+  firstSome
+    [ flag s.rst s.cfg.maxRst,
+      flag s.ping s.cfg.maxPing,
+      flag s.pingLife Consts.h2DefaultMaxPingLifetime,
+      flag s.settings s.cfg.maxSettings,
+      flag s.settingsLife Consts.h2DefaultMaxSettingsLifetime,
+      flag s.emptyData s.cfg.maxEmptyData,
+      flag s.cont s.cfg.maxCont,
+      flag s.wu0 s.cfg.maxWu0,
+      flag s.accHdr s.cfg.maxHeaderList,
+      flag s.glitch s.cfg.maxGlitch ]
 
 /-- `check_flood` -/
 def checkFlood (s : Flood) : Flood × Option Violation :=
@@ -467,7 +486,7 @@ def checkFlood (s : Flood) : Flood × Option Violation :=
 def recordRstLifetime (s : Flood) (responseStarted : Bool) : Flood × Option Violation :=
   let s' := { s with rstLife := satAdd64 s.rstLife 1,
                      rstAbusive := if responseStarted then s.rstAbusive else satAdd64 s.rstAbusive 1 }
-  (s', (flag s'.rstLife s'.cfg.maxRstLife).orElse fun _ => flag s'.rstAbusive s'.cfg.maxRstAbusive)
+  (s', firstSome [flag s'.rstLife s'.cfg.maxRstLife, flag s'.rstAbusive s'.cfg.maxRstAbusive])
 
 /-- `record_rst_emitted` -/
 def recordRstEmitted (s : Flood) : Flood × Option Violation :=
